@@ -67,7 +67,10 @@ def _first(viols, v):
     if key not in viols:
         viols[key] = dict(v, count=1)
     else:
-        viols[key]['count'] += 1
+        n = viols[key]['count'] + 1
+        if _simplicity(v) < _simplicity(viols[key]):
+            viols[key] = dict(v)
+        viols[key]['count'] = n
 
 
 def _worker(chunk):
@@ -199,7 +202,7 @@ def run(ctx):
         raise m.HarnessError('vacuous run: %r' % dict(res.counters))
     violations = []
     for v in sorted(res.violation_list(), key=_simplicity):
-        v = m.shrink(v)
+        v = m.shortest_history(m.shrink(v), tier)
         m.confirm(v)
         violations.append(v)
     creates, updates = m.history_calls(tier)
